@@ -189,8 +189,8 @@ Qed.
 (* ---------------------------------------------------------------- refutation witness *)
 
 (* kinds of the witness: 1 = call expression, 2 = regex literal.  The visitor overrides both;
-   the call override inspects only its own callee and does not recurse (this is the shape of
-   no-invalid-regexp's visit_call_expr). *)
+   the call override inspects only its own callee and does not recurse (the shape of the
+   missing-recursion defects repaired in /repo in round 1). *)
 Definition w_visitor : visitor :=
   mkVisitor (fun k => if N.eqb k 1 then Overridden false else if N.eqb k 2 then Overridden true else NotOverridden)
             (fun t => if N.eqb (kind t) 2 then [(7, span t)] else []).
